@@ -1,6 +1,7 @@
 #!/bin/bash
 # usage: mut.sh <prop> <file> <python-expr old> <new>   -- apply a textual change to /repo, run the quick check, revert
 prop=$1; file=$2; old=$3; new=$4
+if ! git -C /repo diff --quiet; then echo "refusing: /repo has uncommitted changes"; exit 8; fi
 cd /repo && python3 - "$file" "$old" "$new" <<'PY'
 import sys
 p, old, new = sys.argv[1:4]
@@ -10,4 +11,4 @@ open(p, "w").write(s.replace(old, new, 1))
 PY
 [ $? -eq 0 ] || exit 9
 cd /verif && ./check $prop 2>&1 | grep -E "VIOLATION|KNOWN|HARNESS-ERROR|INCONCLUSIVE|exit|assert=" | head -12
-git -C /repo checkout -- .
+git -C /repo diff --quiet HEAD -- . && true; git -C /repo checkout -- .
